@@ -84,7 +84,8 @@ def symbolic_step_exit(F, v, m, s, params, fc, which):
     if rows is None:
         return atoms, None, None, problems
     # the exit on which nothing is delivered is not a step of the recursion
-    if any(isinstance(c, tuple) and c[0] == 'op' and c[1] == 'not' and c[2][0][0] == 'is_some' and c[2][0][1][0] == 'childlast' and c[2][0][1][1] in ('view',) for c in ex.pc):
+    from .terms import nondelivering
+    if nondelivering(ex.pc, ('view',)):
         return atoms, None, None, problems
     return atoms, rows, out, problems
 
